@@ -145,4 +145,15 @@ PROPS = {
         "level_text": "Lean theorems C06_step / C06_history / C06_terminates: for every byte string, every prior contents of the reused decoder structs and every sequence of frames, the three processors never reach a panic, emit at most one record per frame, and emit it only if the frame itself contains the flat, offset-defined header chain of Spec/Frame.lean (version 4, IHL/lengths consistent, well-delimited options, unfragmented; ARP 1/0x0800/6/4) with every record field read from that frame. Tied to the code by histories of structurally generated and malformed frames through the real ScanMethod.ProcessPacketData.",
         "level_note": "Trusted: Lean kernel; the gopacket decoder model is validated differentially (1.5k histories quick / 25k thorough), not proved.",
     },
+    "C18": {
+        "modules": ["SxVerif.Props.C18"],
+        "components": ["parse"],
+        "trusted_base": [
+            "modelled, not verified: strconv.ParseUint(.,10,16) / ParseInt(.,10,32), strings.Split/TrimSpace/ToLower, bufio.Scanner line splitting with the 64 KiB limit, strconv.Unquote on the quoted payload (Model/Parse.lean); time.ParseDuration is a parameter `dur` of the rate theorems (the harness passes the real function's answer)",
+            "flag tables regenerated from command/config.go and command/tcp.go by sxfacts (Generated/Flags.lean)",
+        ],
+        "assumptions": ["time.ParseDuration is exact on what it accepts (parameter of the rate theorems)"],
+        "level_text": "Lean theorems C18_total_* (no parser reaches a panic on any string), C18_ports_exact / C18_rate_exact / C18_ipflags_exact / C18_tcpflags_exact / C18_ports_file / C18_exclude_file (whatever is accepted is exactly what an independent reader says the string denotes; bounds <= 65535) and the round trips C18_ports_roundtrip / C18_range_roundtrip / C18_rate_roundtrip / C18_payload_roundtrip / C18_payload_plain / C18_*flags_roundtrip (every canonical rendering parses back), for all strings and all values, over flag tables regenerated from the source on every run. Tied to the code by the real parsers on grammar-derived and mutated strings, incl. all 2^9 TCP and 2^3 IP flag subsets through the real filler.",
+        "level_note": "Trusted: Lean kernel; the strconv/strings/bufio models are validated differentially on every run, not proved; time.ParseDuration is a parameter.",
+    },
 }
